@@ -1,0 +1,171 @@
+//go:build verif
+
+// Contracts for package dagaz, checked by /verif (hvc). This file contains no declarations:
+// with the build tag off it is not compiled, with it on it adds nothing to the program.
+
+package dagaz
+
+//@ func modules/dagaz.NewRegularGrid
+//@   property C20
+//@   requires numRows <= 1024 && numCols <= 1024
+//@   modifies all elem:[][]*modules/dagaz.Quad*
+//@   allocates
+//@   ensures {C20} result != nil && fresh(result) && result.PlaneCount == 0 && result.MergeCount == 0
+//@   ensures {C20} result.Resolution >= 1 && len(result.Grid) >= 1
+//@   loop 1:
+//@     invariant 0 <= $i && $i <= $numRows && $numRows >= 1 && $numRows <= 1024
+//@     invariant $result != nil && fresh($result) && $result.PlaneCount == 0 && $result.MergeCount == 0 && $result.Resolution >= 1 && len($result.Grid) == $numRows && fresh($result.Grid)
+
+// Ground-plane samples are shared by the participants of a session and kept for as long as the
+// session lives: binding a further participant must not replace the session's spatial partition.
+//@ func (*modules/dagaz.Module).Init
+//@   property C20
+//@   requires s != nil && p != nil && s.moduleStates != nil
+//@   requires "dagaz" in s.moduleStates ==> dyntype(s.moduleStates["dagaz"], *State) && s.moduleStates["dagaz"].(*State) != nil && s.moduleStates["dagaz"].(*State).SpatialPartition != nil
+//@   modifies m.currentSession, m.currentParticipant, m.state, contents(s.moduleStates)
+//@   allocates
+//@   ensures m.currentSession == s && m.currentParticipant == p && m.state != nil && m.state.SpatialPartition != nil
+//@   ensures {C20} "dagaz" in s.moduleStates && s.moduleStates["dagaz"].(*State) == m.state
+//@   ensures {C20} old("dagaz" in s.moduleStates) ==> m.state == old(s.moduleStates["dagaz"].(*State)) && m.state.SpatialPartition == old(s.moduleStates["dagaz"].(*State).SpatialPartition)
+
+// ---------------------------------------------------------------------------------------------
+// The spatial partition as seen by the module handlers (the grid itself — floating-point geometry —
+// is outside the contracts; see DESIGN.md §11): abstract events that may rewrite the partition.
+// ---------------------------------------------------------------------------------------------
+
+//@ func (modules/dagaz.SpatialPartition).InsertQuad
+//@   event
+//@   modifies all modules/dagaz.RegularGrid.*, all modules/dagaz.Quad.*, all elem:*
+//@   allocates
+
+//@ func (modules/dagaz.SpatialPartition).IntersectQuad
+//@   event
+//@   modifies nothing
+//@   allocates
+
+//@ func (modules/dagaz.SpatialPartition).GetRegion
+//@   event
+//@   modifies nothing
+//@   allocates
+//@   trusted_ensures forall j: int :: 0 <= j && j < len(result) ==> result[j] != nil
+
+//@ func (modules/dagaz.SpatialPartition).GetDebugInfo
+//@   event
+//@   modifies nothing
+//@   allocates
+
+//@ spec fn wfDagaz(m *Module) bool = m.currentSession != nil ==> m.state != nil && m.state.SpatialPartition != nil
+
+//@ func (*modules/dagaz.Module).HandleDagazQuadSample
+//@   property C20, C08
+//@   event
+//@   let SP = m.state.SpatialPartition
+//@   requires wfDagaz(m)
+//@   modifies all modules/dagaz.RegularGrid.*, all modules/dagaz.Quad.*, all elem:*
+//@   allocates
+//@   behaviour undecodable:
+//@     assumes !decode_ok(msg)
+//@     ensures result != nil && unchanged_world()
+//@   behaviour not_joined:
+//@     assumes decode_ok(msg) && m.currentSession == nil
+//@     ensures {C04,C03} result != nil && unchanged_world()
+//@   behaviour stored:
+//@     assumes decode_ok(msg) && m.currentSession != nil
+//@     ensures {C20} result == nil
+//@   complete behaviours
+//@   disjoint behaviours
+//@   loop 1:
+//@     invariant -1 <= $rangeindex && unchanged(m.state, m.currentSession) && m.state.SpatialPartition == SP
+//@     emits {C20} [InsertQuad(SP, _)]
+
+//@ func (*modules/dagaz.Module).HandleDagazGetGroundPlane
+//@   property C04, C08
+//@   event
+//@   let req = decoded(msg, dagazpb.DagazGetGroundPlaneRequest)
+//@   requires wfDagaz(m) && respond != nil
+//@   modifies all ghost.*
+//@   allocates
+//@   behaviour undecodable:
+//@     assumes !decode_ok(msg)
+//@     ensures result != nil && unchanged_world()
+//@     emits []
+//@   behaviour not_joined:
+//@     assumes decode_ok(msg) && m.currentSession == nil
+//@     ensures {C04,C03} result != nil && unchanged_world()
+//@     emits {C04,C03} []
+//@   behaviour answered:
+//@     assumes decode_ok(msg) && m.currentSession != nil
+//@     ensures {C04} result == nil && unchanged_world()
+//@     emits {C04} [IntersectQuad(m.state.SpatialPartition, _); send(respond, dagazpb.DagazGetGroundPlaneResponse{Type: dagazpb.MsgType_MSG_TYPE_DAGAZ_GET_GROUND_PLANE_RESPONSE, RequestId: req.RequestId})]
+//@   complete behaviours
+//@   disjoint behaviours
+
+//@ func (*modules/dagaz.Module).HandleDagazGetRegion
+//@   property C04, C08
+//@   event
+//@   let req = decoded(msg, dagazpb.DagazGetRegionRequest)
+//@   requires wfDagaz(m) && respond != nil
+//@   modifies all ghost.*
+//@   allocates
+//@   behaviour undecodable:
+//@     assumes !decode_ok(msg)
+//@     ensures result != nil && unchanged_world()
+//@     emits []
+//@   behaviour not_joined:
+//@     assumes decode_ok(msg) && m.currentSession == nil
+//@     ensures {C04,C03} result != nil && unchanged_world()
+//@     emits {C04,C03} []
+//@   behaviour answered:
+//@     assumes decode_ok(msg) && m.currentSession != nil
+//@     ensures {C04} result == nil && unchanged_world()
+//@     emits {C04} [GetRegion(m.state.SpatialPartition, _, _); send(respond, dagazpb.DagazGetRegionResponse{Type: dagazpb.MsgType_MSG_TYPE_DAGAZ_GET_REGION_RESPONSE, RequestId: req.RequestId})]
+//@   complete behaviours
+//@   disjoint behaviours
+//@   loop 1:
+//@     invariant 0 <= $i && $i <= len($regionQuads) && len($regionQuadsProtobuf) == len($regionQuads)
+//@     invariant forall j: int :: 0 <= j && j < len($regionQuads) ==> $regionQuads[j] != nil
+
+//@ func (*modules/dagaz.Module).HandleDagazGetDebugInfo
+//@   property C04, C08
+//@   event
+//@   let req = decoded(msg, dagazpb.DagazGetDebugInfoRequest)
+//@   requires wfDagaz(m) && respond != nil
+//@   modifies all ghost.*
+//@   allocates
+//@   behaviour undecodable:
+//@     assumes !decode_ok(msg)
+//@     ensures result != nil && unchanged_world()
+//@     emits []
+//@   behaviour not_joined:
+//@     assumes decode_ok(msg) && m.currentSession == nil
+//@     ensures {C04,C03} result != nil && unchanged_world()
+//@     emits {C04,C03} []
+//@   behaviour answered:
+//@     assumes decode_ok(msg) && m.currentSession != nil
+//@     ensures {C04} result == nil && unchanged_world()
+//@     emits {C04} [GetDebugInfo(m.state.SpatialPartition); send(respond, dagazpb.DagazGetDebugInfoResponse{Type: dagazpb.MsgType_MSG_TYPE_DAGAZ_GET_DEBUG_INFO_RESPONSE, RequestId: req.RequestId})]
+//@   complete behaviours
+//@   disjoint behaviours
+
+//@ func (*modules/dagaz.Module).HandleMsg
+//@   property C04, C20
+//@   let N = enumnum(msgtype(msg))
+//@   requires wfDagaz(m) && respond != nil && msgtype(msg) != nil
+//@   behaviour sample:
+//@     assumes N == dagazpb.MsgType_MSG_TYPE_DAGAZ_QUAD_SAMPLE
+//@     emits {C04,C20} [HandleDagazQuadSample(m, _, msg)]
+//@   behaviour ground:
+//@     assumes N == dagazpb.MsgType_MSG_TYPE_DAGAZ_GET_GROUND_PLANE_REQUEST
+//@     emits {C04} [HandleDagazGetGroundPlane(m, _, respond, msg)]
+//@   behaviour region:
+//@     assumes N == dagazpb.MsgType_MSG_TYPE_DAGAZ_GET_REGION_REQUEST
+//@     emits {C04} [HandleDagazGetRegion(m, _, respond, msg)]
+//@   behaviour debug:
+//@     assumes N == dagazpb.MsgType_MSG_TYPE_DAGAZ_GET_DEBUG_INFO_REQUEST
+//@     emits {C04} [HandleDagazGetDebugInfo(m, _, respond, msg)]
+//@   behaviour other:
+//@     assumes N != dagazpb.MsgType_MSG_TYPE_DAGAZ_QUAD_SAMPLE && N != dagazpb.MsgType_MSG_TYPE_DAGAZ_GET_GROUND_PLANE_REQUEST && N != dagazpb.MsgType_MSG_TYPE_DAGAZ_GET_REGION_REQUEST && N != dagazpb.MsgType_MSG_TYPE_DAGAZ_GET_DEBUG_INFO_REQUEST
+//@     ensures {C04} result == nil && unchanged_world()
+//@     emits {C04} []
+//@   complete behaviours
+//@   disjoint behaviours
